@@ -574,8 +574,11 @@ func (P *Program) directMods(fn *ssa.Function) (map[string]bool, []*ssa.Function
 			return
 		}
 		key := FuncKey(callee)
-		if fc := P.contractFor(key); fc != nil && (fc.Trusted || fc.Pure) {
+		if fc := P.contractFor(key); fc != nil && (fc.Trusted || fc.Pure || fc.NoEffects) {
 			P.contractMods(fc, c, out)
+			for _, g := range fc.Sets {
+				out["H:"+g.Name] = true
+			}
 			return
 		}
 		if callee.Blocks != nil && (callee.Pkg != nil && IsRepoPath(callee.Pkg.Pkg.Path()) || callee.Parent() != nil) {
